@@ -307,7 +307,7 @@ func Check() *common.Check {
 		Level:     "exploration",
 		CrashSafe: true,
 		Rule: "scripts S1;...;Sn: all sequences of n<=2 over the full pool (9 valid statements - one per kind plus DESCRIBE / SHOW / REPLACE, which do not start with a recovery synchronisation keyword - and every failing corruption of them: first / second / last token deleted, middle token duplicated or replaced, truncated after 2, 3, 4 tokens and at half, none containing a statement-starting keyword after its first token), n<=3 over the valid statements and an even spread of 14 corruptions " +
-			"and n<=5 (quick) / n<=6 (thorough) over 2 valid + 3 corrupt, each with and without a trailing semicolon; every rejected proper prefix (up to the first inner statement-starting keyword) of every clause-option, DML and DDL statement of the sqlgen space, followed by SHOW TABLES / a SELECT / a malformed non-keyword segment, and between two neighbours; every proper prefix of those statements followed by a statement exactly at the nesting limit (which must be returned); all scripts of <=3 segments over 6 MySQL-only / portable / malformed statements through the recovery method of a parser built with the mysql dialect, once and twice; every byte prefix (quick: 600 bytes) of every corpus file under /repo/testdata for termination and the iff clause; every single-token deletion / duplication / replacement inside every representative expression of sqlgen (in WHERE and in the select list) and at every position of every clause-option / DML / DDL statement without an inner statement-starting keyword, before a follower and between two neighbours; plus all lexeme sequences of length <=3 (quick) / <=4 (thorough) over a 24-lexeme alphabet for termination and the iff clause. " +
+			"and n<=5 (quick) / n<=6 (thorough) over 2 valid + 3 corrupt, each with and without a trailing semicolon; every rejected proper prefix (up to the first inner statement-starting keyword) of every clause-option, DML and DDL statement of the sqlgen space, followed by SHOW TABLES / a SELECT / a malformed non-keyword segment, and between two neighbours; every proper prefix of those statements followed by a statement exactly at the nesting limit (which must be returned); all scripts of <=3 segments over 6 MySQL-only / portable / malformed statements through the recovery method of a parser built with the mysql dialect, once and twice; every byte prefix (quick: 600 bytes) of every corpus file under /repo/testdata for termination and the iff clause; every single-token deletion / duplication / replacement inside every representative expression of sqlgen (in WHERE and in the select list) and at every position of every clause-option / DML / DDL statement without an inner statement-starting keyword, before a follower and between two neighbours; bracket debris: every malformed segment of the corruption pool followed by every word of length <=2 (quick) / <=3 (thorough) over ( ) [ ] 1 and the comma that contains a bracket (unclosed, unopened, balanced, crossed, empty, filled), before SHOW TABLES and between SELECTs followed by SHOW TABLES; plus all lexeme sequences of length <=3 (quick) / <=4 (thorough) over a 24-lexeme alphabet for termination and the iff clause. " +
 			"distinct = distinct script text; non-trivial = script mixes well-formed and malformed segments",
 		Assume: []string{"a segment is well-formed iff gosqlx.Parse accepts it alone", "parser-token count of a segment = number of generator lexemes; verified at run time on the accepted statement each segment was cut from, and where it does not hold (keyword pairs the tokenizer merges) the token-index clause is replaced by the reported-column clause alone"},
 		Enumerate: func(e *common.Enum) {
@@ -482,6 +482,81 @@ func Check() *common.Check {
 			sqlgen.ClauseOptions(func(name string, st sqlgen.S) { corruptExpr("clause:"+name, st) })
 			sqlgen.DMLCases(func(name string, st sqlgen.S) { corruptExpr("dml:"+name, st) })
 			sqlgen.DDLCases(func(name string, st sqlgen.S) { corruptExpr("ddl:"+name, st) })
+			// bracket debris: every malformed segment of the corruption pool followed, behind its last token - so at or behind the token its error is
+			// raised at - by every word of length <=2 (thorough: <=3) over ( ) [ ] 1 and the comma: brackets that are never
+			// closed, closed without being opened, balanced, crossed, empty or filled.  What recovery skips belongs to the
+			// broken statement alone: the next semicolon ends it whatever brackets were left open, and both neighbours (one
+			// starting with a synchronisation keyword, one not) are returned.  Words the tokenizer rejects are left out
+			// (nothing is parsed then), segments the debris completes to a well-formed statement are left out too.
+			{
+				dalpha := []string{"(", ")", "[", "]", "1", ","}
+				dmax := 2
+				if e.Thorough() {
+					dmax = 3
+				}
+				var dwords [][]string
+				var dw func(prefix []string)
+				dw = func(prefix []string) {
+					if len(prefix) > 0 {
+						hasBracket := false
+						for _, w := range prefix {
+							hasBracket = hasBracket || w == "(" || w == ")" || w == "[" || w == "]"
+						}
+						if hasBracket {
+							dwords = append(dwords, append([]string{}, prefix...))
+						}
+					}
+					if len(prefix) == dmax {
+						return
+					}
+					for _, a := range dalpha {
+						dw(append(append([]string{}, prefix...), a))
+					}
+				}
+				dw(nil)
+				type dbase struct {
+					name  string
+					words []string
+					cntOK bool
+				}
+				var bases []dbase
+				for _, cs := range corrupt {
+					bases = append(bases, dbase{cs.name, cs.words, cs.cntOK})
+				}
+				seenDebris := map[string]bool{}
+				for _, b := range bases {
+					for _, w := range dwords {
+						toks := rawTok(append(append([]string{}, b.words...), w...)...)
+						ds := mkseg("debris:"+b.name, toks)
+						if ds.ok || seenDebris[ds.sql] {
+							continue
+						}
+						seenDebris[ds.sql] = true
+						// the token-index clause needs one parser token per lexeme: true of the statement the base was cut
+						// from, and of the debris when the tokenizer gives one token per debris lexeme
+						ds.cntOK = false
+						if ttoks, err := tokensOnly(strings.Join(w, " ")); err != nil {
+							continue
+						} else {
+							n := len(ttoks)
+							if n > 0 && ttoks[n-1].Token.Type == models.TokenTypeEOF {
+								n--
+							}
+							ds.cntOK = b.cntOK && n == len(w)
+						}
+						if _, err := tokensOnly(ds.sql); err != nil {
+							continue
+						}
+						if len(followers) < 2 {
+							continue
+						}
+						p1 := []seg{ds, followers[0]}
+						e.Do("debris|"+ds.sql, func(c *common.Ctx) { checkScript(c, p1, false) })
+						p2 := []seg{followers[1], ds, followers[1], followers[0]}
+						e.Do("debris-mid|"+ds.sql, func(c *common.Ctx) { checkScript(c, p2, true) })
+					}
+				}
+			}
 			// every byte prefix (quick: the first 600 bytes) of every corpus file: statement kinds and dialect constructs
 			// outside the model grammar, cut at every point - termination and the iff clause
 			var files []string
